@@ -532,7 +532,7 @@ fn oracle_overlay(depth: usize) -> bool {
 fn big_h() -> Vec<u8> { (0..20_000u32).map(|i| (i % 251) as u8).collect() }
 fn oracle_union(depth: usize) -> bool {
     let mut r = Report::new("union.overlay");
-    let universe = ["", "/f", "/d", "/d/g", "/h", "/n", "/d/n", "/e", "/mv", "/d/s", "/d/s/n"];
+    let universe = ["", "/f", "/d", "/d/g", "/é", "/n", "/d/n", "/e", "/mv", "/d/s", "/d/s/n"];
     let ops = [Op::CreateDir, Op::CreateFile, Op::Append, Op::RemoveFile, Op::RemoveDir, Op::RemoveDirAll, Op::CreateDirAll, Op::MoveTo, Op::CopyTo];
     let steps: Vec<(Op, &str)> = ops.iter().flat_map(|o| universe[1..].iter().map(move |p| (*o, *p))).collect();
     let mut seqs: Vec<Vec<(Op, &str)>> = vec![vec![]];
@@ -548,13 +548,13 @@ fn oracle_union(depth: usize) -> bool {
             l1.join("f").unwrap().create_file().unwrap().write_all(b"f1").unwrap();
             l1.join("e").unwrap().create_dir().unwrap();
             l2.join("f").unwrap().create_file().unwrap().write_all(b"f2").unwrap();
-            l2.join("h").unwrap().create_file().unwrap().write_all(&big_h()).unwrap();
+            l2.join("é").unwrap().create_file().unwrap().write_all(&big_h()).unwrap();
             // names ending in "_wo" are reserved by the overlay (C01 leaves them unspecified) and are not generated: on the pinned tree the marker of
             // "/f" (.whiteout/f_wo) collides with the marker folder of a directory "/f_wo"
             let mut m: Model = BTreeMap::new();
             m.insert(String::new(), Node::Dir);
             m.insert("/d".into(), Node::Dir); m.insert("/d/g".into(), Node::File(b"g1".to_vec())); m.insert("/f".into(), Node::File(b"f1".to_vec()));
-            m.insert("/e".into(), Node::Dir); m.insert("/h".into(), Node::File(big_h())); m.insert("/d/s".into(), Node::Dir);
+            m.insert("/e".into(), Node::Dir); m.insert("/é".into(), Node::File(big_h())); m.insert("/d/s".into(), Node::Dir);
             if upper_has_f { upper.join("f").unwrap().create_file().unwrap().write_all(b"f0").unwrap(); m.insert("/f".into(), Node::File(b"f0".to_vec())); }
             let ov: VfsPath = OverlayFS::new(&[upper.clone(), l1, l2]).into();
             if f_removed { ov.join("f").unwrap().remove_file().unwrap(); m.remove("/f"); }
@@ -828,6 +828,46 @@ fn oracle_copydir() -> bool {
         }
       }
     }
+    // a PhysicalFS source (the one backend with a native move_dir): to the same instance, to another PhysicalFS instance, to a MemoryFS
+    let tree = &trees[2];
+    for destkind in ["same", "other-physical", "memory"] {
+        for mv in [false, true] {
+            r.case();
+            let base = std::env::temp_dir().join(format!("vfs-oracle-copydir-{}-{}-{}", std::process::id(), destkind, mv));
+            let _ = std::fs::remove_dir_all(&base);
+            std::fs::create_dir_all(base.join("a")).unwrap(); std::fs::create_dir_all(base.join("b")).unwrap();
+            let a: VfsPath = vfs::PhysicalFS::new(base.join("a")).into();
+            let b: VfsPath = match destkind { "same" => a.clone(), "other-physical" => vfs::PhysicalFS::new(base.join("b")).into(), _ => MemoryFS::new().into() };
+            let what = format!("physical source, destination={} move={}", destkind, mv);
+            let res = catch_unwind(AssertUnwindSafe(|| {
+                let src = a.join("data").unwrap(); src.create_dir().unwrap();
+                // a directory of the same name as the destination exists on the source filesystem: a destination path must never be read against it
+                a.join("keepdir").unwrap().create_dir().unwrap();
+                for (p, c) in tree { let q = src.join(p).unwrap(); match c { None => q.create_dir().unwrap(), Some(bytes) => { q.create_file().unwrap().write_all(bytes).unwrap(); } } }
+                if destkind != "same" { b.join("keepdir").unwrap().create_dir().unwrap(); }
+                let dst = b.join("keepdir/out").unwrap();
+                let strip = |v: Vec<(String, Option<Vec<u8>>, Option<std::time::SystemTime>, Option<std::time::SystemTime>)>, pre: &str| -> Vec<(String, Option<Vec<u8>>)> { let mut o: Vec<(String, Option<Vec<u8>>)> = v.into_iter().map(|(p, c, _, _)| (p[pre.len()..].to_string(), c)).collect(); o.sort(); o };
+                let before = strip(snapshot(&src), "/data");
+                let out: Result<Option<u64>, String> = if mv { src.move_dir(&dst).map(|_| None).map_err(|e| e.to_string()) } else { src.copy_dir(&dst).map(Some).map_err(|e| e.to_string()) };
+                tr(&format!("{} {:?}", what, out));
+                match out {
+                    Err(e) => return Some(format!("failed: {}", e)),
+                    Ok(count) => {
+                        if !dst.exists().unwrap_or(false) { return Some("the destination does not exist afterwards".into()); }
+                        let got = strip(snapshot(&dst), "/keepdir/out");
+                        if got != before { return Some(format!("destination tree {:?}, expected {:?}", got.iter().map(|x| &x.0).collect::<Vec<_>>(), before.iter().map(|x| &x.0).collect::<Vec<_>>())); }
+                        if let Some(n) = count { if n != tree.len() as u64 { return Some(format!("copy_dir returned {}, expected {}", n, tree.len())); } }
+                        if mv { if src.exists().unwrap() { return Some("source still exists after move_dir".into()); } }
+                        else if strip(snapshot(&src), "/data") != before { return Some("source changed by copy_dir".into()); }
+                        if destkind != "same" && a.join("keepdir").unwrap().read_dir().map(|it| it.count()).unwrap_or(99) != 0 { return Some("the transfer wrote into the SOURCE filesystem at the destination's path".into()); }
+                    }
+                }
+                None
+            }));
+            let _ = std::fs::remove_dir_all(&base);
+            match res { Err(_) => r.fail(what, "panicked".into()), Ok(Some(d)) => r.fail(what, d), Ok(None) => {} }
+        }
+    }
     r.done()
 }
 
@@ -1036,7 +1076,11 @@ fn oracle_hostile() -> bool {
                     1 => { let _ = q.metadata(); }
                     2 => { let _ = q.read_dir().map(|it| it.count()); }
                     3 => { if let Ok(mut h) = q.open_file() { let mut b = vec![]; let _ = h.read_to_end(&mut b); } }
-                    4 => { let _ = q.create_dir(); }
+                    4 => { // every listed name is occupied (also by a dangling symlink): create_dir must classify it as file-exists / directory-exists (C12)
+                           let res = q.create_dir(); tr(&format!("create_dir {:?}", res.as_ref().map_err(|e| kind_name(e))));
+                           match res { _ if n.contains('\u{fffd}') => {}   // a lossily listed non-UTF-8 name is a different (free) name
+                                       Err(e) if matches!(e.kind(), VfsErrorKind::FileExists | VfsErrorKind::DirectoryExists) => {}
+                                       other => return Some(format!("create_dir on the occupied name {:?} answered {:?}", n, other.map_err(|e| e.to_string()))) } }
                     5 => { let _ = q.create_dir_all(); }
                     6 => { let _ = q.create_file().map(|mut h| h.write_all(b"w")); }
                     7 => { let _ = q.append_file().map(|mut h| h.write_all(b"w")); }
